@@ -9,7 +9,9 @@ CFG = {
     "rule": "byte strings: exhaustive over a 17-symbol boundary alphabet up to length 4 (quick) / 5 (thorough), random nested items "
             "with their encodings, 6 mutations each, truncations, trailing bytes, long-form size boundaries; every such input also through the "
             "Stream entry point and DecodeBytes with the error kind against the Go-shaped Stream machine (sdec), and the Stream "
-            "primitives Uint/Bool/Bytes/Raw/Kind on strings up to length 3, all single bytes and mutated encodings (sprim); 120 (quick) / 1200 (thorough, -race) rounds of concurrent "
+            "primitives Uint/Bool/Bytes/Raw/Kind on strings up to length 3, all single bytes and mutated encodings (sprim); a size-field lattice (headers B8..BF/F8..FF with sizes 2^k-j..2^k+j, k=6..64, j<=20, 0..3 payload bytes, standalone and as the "
+            "last element of a short list: 38 368 inputs) through DecodeBytes, Stream, Split, SplitString, SplitList, CountValues and the list walk; "
+            "120 (quick) / 1200 (thorough, -race) rounds of concurrent "
             "first use of never-seen struct types (12-36 mixed fields with nested fresh structs behind slices/pointers, every 10th round 300 distinct "
             "nested types) by 16/32/64 start-gated goroutines. Typed targets (uint8..64, "
             "bool, big, bytes, string, [1]byte, [][1]byte, [20]byte, []uint16, [3]uint16, structs with nil/tail/- tags, byte arrays "
@@ -26,7 +28,9 @@ CFG = {
             "through NewStream(r,len)+Decode+second Decode and through DecodeBytes":
                 "corr WITH error kinds (Go vs the Go-shaped machine Model.RlpStream, line kind sdec) + proof stream_refines (machine = Model.Rlp.dec)",
             "Stream.Uint/Bool/Bytes/Raw/Kind on a fresh stream": "corr with error kinds (line kind sprim); no refinement theorem yet", "rlp.EncodeToBytes of items": "corr (Go vs Model.Rlp.enc)",
-            "rlp.Split": "corr",
+            "rlp.Split": "corr (Go vs readHead-based outSplit, line kind split)",
+            "rlp/raw.go readKind/readSize/Split/SplitString/SplitList/CountValues":
+                "corr with error kinds and an explicit panic outcome (Go vs the Go-shaped Model.RlpRaw, line kinds rsplit / cv) + proofs split_total, countValues_total",
             "rlp/typecache.go cachedTypeInfo/cachedTypeInfo1 (placeholder visible only under the write lock)":
                 "direct Spec judgement: concurrent FIRST use of run-time generated types (reflect.StructOf) by 16-64 goroutines, no panic and every "
                 "result equals the sequential one; thorough tier under -race",
@@ -43,6 +47,7 @@ CFG = {
                     "type descriptors of the Go target types are written by hand in the harness (reflection order/tags are not extracted)"],
     "trusted_base": ["Model.Rlp mirrors rlp/encode.go puthead/encodeString and the canonical-size rules of rlp/decode.go readKind/readUint and rlp/raw.go",
                      "Model.RlpTyped mirrors the typed decoders of rlp/decode.go and the writers of rlp/encode.go on byte strings (list extents = take/drop)",
+                     "Model.RlpRaw mirrors rlp/raw.go (readKind, readSize, Split*, CountValues) over Nat with slice-bounds panics as an explicit outcome",
                      "Model.RlpStream mirrors rlp.Stream statement by statement (stack of extents, remaining/limited, cached kind/size/byteval/kinderr, ghost allocation counter)"],
 }
 META = {
@@ -51,7 +56,8 @@ META = {
             "encoder and strict decoder; stream_refines, stream_refines_reject, stream_refines_stream, stream_more_than_one_value (the Go-shaped rlp.Stream "
             "state machine with list-extent stack, input budget and sticky kinderr decodes into interface{} exactly what the strict decoder accepts, via "
             "DecodeBytes and via NewStream+Decode+EOF), alloc_bound (ghost sum of allocated buffer bytes <= input length, accepted or rejected), "
-            "stream_total, stream_invariant; typed_dec_enc, typed_enc_dec, typed_decoded_wf, typed_one_encoding_per_value, typed_enc_injective, "
+            "stream_total, stream_invariant; split_total, countValues_total, raw_readKind_in_bounds (the Go-shaped model of raw.go with an explicit "
+            "slice-bounds panic outcome never panics and CountValues terminates); typed_dec_enc, typed_enc_dec, typed_decoded_wf, typed_one_encoding_per_value, typed_enc_injective, "
             "typed_decode_total, typed_decode_consumes hold for the model of the reflection-driven typed decoders/writers over the whole type universe "
             "(uint, big, bool, bytes, [n]byte, slices, arrays, structs with tail, pointers, rlp:\"nil\" pointers, RawValue, interface{}), which covers "
             "the shapes of Header, Transaction, Block, Receipt, Log and Account. Every run re-checks the proofs and runs the real rlp package and the "
